@@ -105,6 +105,10 @@ def relevant_axioms(axioms, formulas):
 def generate(contract, source_root=None, extra_requires=None):
     """-> list of (variant_name, Exec) with obligations generated"""
     variants = contract.variants or [{}]
+    import os
+    if os.environ.get("VERIF_TIER", "quick") != "thorough":
+        # case splits marked tier="thorough" are heavy (hundreds of paths): quick runs the others
+        variants = [v for v in variants if v.get("tier") != "thorough"] or variants
     out = []
     for i, v in enumerate(variants):
         if extra_requires:
